@@ -155,3 +155,945 @@ pub fn c05(tier: Tier) -> i32 {
         samples,
     )
 }
+
+// ======================================================================================= C06
+
+use crate::synth::P::{C, T};
+
+fn tyf(name: &str) -> Frag {
+    match name {
+        "mapping" => nodep("Type", 0, vec![T("mapping"), T("("), C(ty("address")), T("=>"), C(ty("uint256")), T(")")]),
+        "array" => nodep("ArraySubscript", 0, vec![C(ty("uint256")), T("["), T("]")]),
+        "user" => var("UserT"),
+        "uint256" => ty("uint256"),
+        "address" => ty("address"),
+        "bool" => ty("bool"),
+        "string" => ty("string"),
+        "bytes32" => ty("bytes32"),
+        "uint128" => ty("uint128"),
+        _ => ty("uint8"),
+    }
+}
+
+fn var_member(tyn: &str, vis: &'static str, mutk: &'static str, name: String) -> Frag {
+    let mut p = vec![C(tyf(tyn))];
+    if !vis.is_empty() {
+        p.push(T(vis));
+    }
+    if !mutk.is_empty() {
+        p.push(T(mutk));
+    }
+    p.push(crate::synth::P::S(name));
+    if mutk == "constant" {
+        p.push(T("="));
+        p.push(C(match tyn {
+            "address" => call(ty("address"), vec![num("1")]),
+            "bool" => nodep("BoolLiteral", 0, vec![T("true")]),
+            "string" => strlit("s"),
+            _ => num("1"),
+        }));
+    }
+    p.push(T(";"));
+    node("VariableDefinition", p)
+}
+
+fn func_member(kind: &'static str, vis: &'static str, mutab: &'static str, body: bool, name: String) -> Frag {
+    let mut p = vec![T(kind)];
+    if kind == "function" || kind == "modifier" {
+        p.push(crate::synth::P::S(name));
+    }
+    p.push(T("("));
+    p.push(T(")"));
+    if !vis.is_empty() {
+        p.push(T(vis));
+    }
+    if !mutab.is_empty() {
+        p.push(T(mutab));
+    }
+    if body {
+        p.push(C(block(vec![])));
+    } else {
+        p.push(T(";"));
+    }
+    node("FunctionDefinition", p)
+}
+
+/// every member description of the decided alphabet (plus gray ones), with a label
+fn member_descriptions() -> Vec<(String, Box<dyn Fn(usize) -> Frag + Sync + Send>)> {
+    let mut v: Vec<(String, Box<dyn Fn(usize) -> Frag + Sync + Send>)> = Vec::new();
+    for tyn in ["uint256", "address", "bool", "string", "bytes32", "mapping", "array", "user"] {
+        for vis in ["", "public", "private", "internal"] {
+            for mutk in ["", "constant", "immutable"] {
+                for und in [false, true] {
+                    if (tyn == "mapping" || tyn == "array" || tyn == "user") && mutk != "" {
+                        continue;
+                    }
+                    let label = format!("var:{}:{}:{}:{}", tyn, vis, mutk, und);
+                    v.push((label, Box::new(move |i| var_member(tyn, vis, mutk, format!("{}v{}", if und { "_" } else { "" }, i)))));
+                }
+            }
+        }
+    }
+    for vis in ["", "public", "external", "internal", "private"] {
+        for mutab in ["", "view", "pure", "payable"] {
+            for body in [true, false] {
+                for und in [false, true] {
+                    let label = format!("fn:{}:{}:{}:{}", vis, mutab, body, und);
+                    v.push((label, Box::new(move |i| func_member("function", vis, mutab, body, format!("{}f{}", if und { "_" } else { "" }, i)))));
+                }
+            }
+        }
+    }
+    for vis in ["", "public", "internal"] {
+        for mutab in ["", "payable"] {
+            v.push((format!("ctor:{}:{}", vis, mutab), Box::new(move |_| func_member("constructor", vis, mutab, true, String::new()))));
+        }
+    }
+    for kind in ["fallback", "receive"] {
+        for vis in ["", "external"] {
+            for mutab in ["", "payable"] {
+                for body in [true, false] {
+                    v.push((format!("{}:{}:{}:{}", kind, vis, mutab, body), Box::new(move |_| func_member(kind, vis, mutab, body, String::new()))));
+                }
+            }
+        }
+    }
+    v.push(("modifier".into(), Box::new(|i| func_member("modifier", "", "", true, format!("md{}", i)))));
+    v.push(("modifier:virtual".into(), Box::new(|i| func_member("modifier", "virtual", "", true, format!("md{}", i)))));
+    v
+}
+
+fn neighbour(k: usize, i: usize) -> Frag {
+    match k {
+        0 => var_member("uint256", "", "", format!("n{}", i)),
+        1 => var_member("uint128", "private", "", format!("_n{}", i)),
+        2 => func_member("function", "public", "payable", true, format!("g{}", i)),
+        3 => func_member("function", "internal", "", true, format!("_g{}", i)),
+        4 => func_member("modifier", "", "", true, format!("m{}", i)),
+        5 => func_member("constructor", "", "payable", true, String::new()),
+        6 => node("EventDefinition", vec![T("event"), crate::synth::P::S(format!("Ev{}", i)), T("("), T(")"), T(";")]),
+        _ => node("StructDefinition", vec![T("struct"), crate::synth::P::S(format!("St{}", i)), T("{"), C(ty("uint256")), T("a"), T(";"), T("}")]),
+    }
+}
+
+fn other_item(k: usize) -> Frag {
+    match k {
+        0 => contract_kw(&["contract"], "Other0", vec![], vec![func_member("function", "external", "payable", true, "h0".into()), func_member("constructor", "", "payable", true, String::new())]),
+        1 => contract_kw(&["library"], "Other1", vec![], vec![func_member("function", "internal", "", true, "_h1".into())]),
+        2 => contract_kw(&["interface"], "Other2", vec![], vec![func_member("function", "external", "payable", false, "h2".into())]),
+        3 => func("freeh3", &[], vec![]),
+        _ => contract_kw(&["contract"], "Other4", vec![], vec![func_member("constructor", "", "payable", true, String::new()), func_member("function", "external", "payable", true, "h4".into())]),
+    }
+}
+
+fn as_item(kw: &[&'static str], name: &'static str, members: Vec<Frag>) -> Frag {
+    contract_kw(kw, name, vec![], members)
+}
+
+fn item_text(label: String, items: Vec<Frag>) -> (String, String, Vec<usize>) {
+    let mut parts = vec![pragma(PRAGMA)];
+    parts.extend(items);
+    let f = file(parts);
+    let (t, o) = render_l1(&f.toks);
+    (label, t, o)
+}
+
+const CO_KINDS: &[&str] = &["function", "fallback", "receive", "modifier", "constructor", "variable", "event"];
+
+fn co_member(k: usize, i: usize) -> Frag {
+    match CO_KINDS[k] {
+        "function" => func_member("function", "external", "payable", true, format!("cf{}", i)),
+        "fallback" => func_member("fallback", "external", "payable", true, String::new()),
+        "receive" => func_member("receive", "external", "payable", true, String::new()),
+        "modifier" => func_member("modifier", "", "", true, format!("cm{}", i)),
+        "constructor" => func_member("constructor", "", "payable", true, String::new()),
+        "variable" => var_member("uint256", "", "", format!("cv{}", i)),
+        _ => node("EventDefinition", vec![T("event"), crate::synth::P::S(format!("CE{}", i)), T("("), T(")"), T(";")]),
+    }
+}
+
+fn sequences(max_len: usize) -> Vec<Vec<usize>> {
+    let mut all = vec![vec![]];
+    let mut cur: Vec<Vec<usize>> = vec![vec![]];
+    for _ in 0..max_len {
+        let mut next = Vec::new();
+        for s in &cur {
+            for k in 0..CO_KINDS.len() {
+                let mut t = s.clone();
+                t.push(k);
+                next.push(t);
+            }
+        }
+        all.extend(next.iter().cloned());
+        cur = next;
+    }
+    all
+}
+
+pub fn c06(tier: Tier) -> i32 {
+    util::quiet();
+    let mut run = Run::new("C06", if tier == Tier::Quick { "quick" } else { "thorough" });
+    let ds = dets::by_names(C06_DETS);
+    if ds.len() != C06_DETS.len() {
+        run.machinery("not all 5 detectors are addressable by their documented name".into());
+    }
+    let descs = member_descriptions();
+    let kinds: [&[&'static str]; 4] = [&["contract"], &["abstract", "contract"], &["library"], &["interface"]];
+    // ---- family 1: every member description alone / with <= 2 neighbours, in every contract kind
+    let mut items: Vec<(String, String, Vec<usize>)> = Vec::new();
+    for (label, mk) in &descs {
+        for kw in kinds.iter() {
+            items.push(item_text(format!("alone:{}:{}", kw.join(" "), label), vec![as_item(kw, "C", vec![mk(0)])]));
+        }
+        for nk in 0..8 {
+            items.push(item_text(format!("before:{}:n{}", label, nk), vec![as_item(&["contract"], "C", vec![neighbour(nk, 1), mk(0)])]));
+            items.push(item_text(format!("after:{}:n{}", label, nk), vec![as_item(&["contract"], "C", vec![mk(0), neighbour(nk, 1)])]));
+        }
+        let two = if tier == Tier::Quick { 4 } else { 8 };
+        for n1 in 0..two {
+            for n2 in 0..two {
+                let (a, b) = (n1 * 8 / two, (n2 * 8 / two + 1) % 8);
+                items.push(item_text(format!("nnm:{}:{}:{}", label, a, b), vec![as_item(&["contract"], "C", vec![neighbour(a, 1), neighbour(b, 2), mk(0)])]));
+                items.push(item_text(format!("nmn:{}:{}:{}", label, a, b), vec![as_item(&["contract"], "C", vec![neighbour(a, 1), mk(0), neighbour(b, 2)])]));
+                items.push(item_text(format!("mnn:{}:{}:{}", label, a, b), vec![as_item(&["contract"], "C", vec![mk(0), neighbour(a, 1), neighbour(b, 2)])]));
+            }
+        }
+        // the contract as first / second / third item of a multi-item file
+        for o1 in 0..5 {
+            for o2 in 0..5 {
+                if tier == Tier::Quick && (o1 + o2) % 2 == 1 {
+                    continue;
+                }
+                if o1 == o2 {
+                    continue;
+                }
+                let me = || as_item(&["contract"], "C", vec![neighbour(2, 1), mk(0)]);
+                items.push(item_text(format!("item1:{}:{}:{}", label, o1, o2), vec![me(), other_item(o1), other_item(o2)]));
+                items.push(item_text(format!("item2:{}:{}:{}", label, o1, o2), vec![other_item(o1), me(), other_item(o2)]));
+                items.push(item_text(format!("item3:{}:{}:{}", label, o1, o2), vec![other_item(o1), other_item(o2), me()]));
+            }
+        }
+    }
+    let sw = refdet::sweep_texts(&items, &ds, Mode::Semantic);
+    require_must(&mut run, &sw, &["payable_function", "private_constant", "private_vars_leading_underscore", "private_func_leading_underscore", "constructor_order"], "members");
+    let sample1 = json!({"label": items[items.len() / 2].0, "text": items[items.len() / 2].1});
+    absorb(&mut run, sw, "members");
+
+    // ---- family 2: constructor_order, all member-kind sequences in all files of <= 2 (3) contracts
+    let co: Vec<_> = ds.iter().filter(|d| d.name == "constructor_order").cloned().collect();
+    let mut items2: Vec<(String, String, Vec<usize>)> = Vec::new();
+    let mk_contract = |name: &'static str, kw: &[&'static str], seq: &[usize], base: usize| -> Frag { as_item(kw, name, seq.iter().enumerate().map(|(i, &k)| co_member(k, base + i)).collect()) };
+    let long = sequences(if tier == Tier::Quick { 5 } else { 6 });
+    for s in &long {
+        items2.push(item_text(format!("co1:{:?}", s), vec![mk_contract("A", &["contract"], s, 0)]));
+    }
+    let short = sequences(if tier == Tier::Quick { 2 } else { 3 });
+    let mid = sequences(if tier == Tier::Quick { 3 } else { 4 });
+    for (i, s1) in mid.iter().enumerate() {
+        for s2 in &short {
+            let kw2: &[&'static str] = match i % 3 {
+                0 => &["contract"],
+                1 => &["library"],
+                _ => &["abstract", "contract"],
+            };
+            items2.push(item_text(format!("co2:{:?}|{:?}", s1, s2), vec![mk_contract("A", &["contract"], s1, 0), mk_contract("B", kw2, s2, 10)]));
+            items2.push(item_text(format!("co2r:{:?}|{:?}", s2, s1), vec![mk_contract("A", kw2, s2, 10), mk_contract("B", &["contract"], s1, 0)]));
+            if s1.len() <= 2 {
+                items2.push(item_text(format!("co2f:{:?}|free|{:?}", s1, s2), vec![mk_contract("A", &["contract"], s1, 0), func("freefn", &[], vec![]), mk_contract("B", &["contract"], s2, 10)]));
+            }
+        }
+    }
+    let tiny = sequences(if tier == Tier::Quick { 1 } else { 2 });
+    for s1 in &short {
+        for s2 in &tiny {
+            for s3 in &short {
+                items2.push(item_text(format!("co3:{:?}|{:?}|{:?}", s1, s2, s3), vec![mk_contract("A", &["contract"], s1, 0), mk_contract("B", &["interface"], s2, 10), mk_contract("D", &["contract"], s3, 20)]));
+            }
+        }
+    }
+    // count family: k functions (and k modifiers) before a constructor
+    for k in [0usize, 1, 2, 127, 128, 254, 255, 256, 257, 300, 511, 512, 513] {
+        let mut ms: Vec<Frag> = (0..k).map(|i| co_member(0, i)).collect();
+        ms.push(co_member(4, 0));
+        items2.push(item_text(format!("count:functions:{}", k), vec![as_item(&["contract"], "A", ms)]));
+        let mut ms: Vec<Frag> = (0..k).map(|i| co_member(3, i)).collect();
+        ms.push(co_member(4, 0));
+        items2.push(item_text(format!("count:modifiers:{}", k), vec![as_item(&["contract"], "A", ms)]));
+    }
+    let sw2 = refdet::sweep_texts(&items2, &co, Mode::Semantic);
+    require_must(&mut run, &sw2, &["constructor_order"], "constructor-order-sequences");
+    let sample2 = json!({"label": items2[items2.len() / 3].0, "text": items2[items2.len() / 3].1});
+    absorb(&mut run, sw2, "constructor-order-sequences");
+
+    // ---- family 3: Σ_D (declaration alternatives alone and in ordered pairs) for all five detectors
+    let c = corpus::build(Tier::Quick);
+    let d_items: Vec<(String, String, Vec<usize>)> = c
+        .progs
+        .iter()
+        .filter(|p| p.tag.starts_with("D") || p.tag.starts_with("C0") || p.tag.starts_with("A1:"))
+        .map(|p| {
+            let (t, o) = render_l1(&p.toks);
+            (p.tag.clone(), t, o)
+        })
+        .filter(|(_, t, _)| refdet::unique_state_var_names(t))
+        .collect();
+    let sw3 = refdet::sweep_texts(&d_items, &ds, Mode::Semantic);
+    absorb(&mut run, sw3, "Σ_D+contexts");
+    finish(
+        run,
+        "states = files of the declaration space D: every member description (type x visibility x constant/immutable x name; function kind x visibility x mutability x body x name) alone in every contract kind, with <= 2 neighbours of 8 member kinds at every relative position, and as 1st/2nd/3rd item of multi-item files; constructor_order: ALL sequences over 7 member kinds of length <= 5 in one contract, <= 3 x <= 2 in two contracts (both orders, with a free function between), three contracts, counts up to 513; plus Σ_D; oracle = reference detectors 8.12–8.16 with iff semantics on the decided alphabet; non-trivial = distinct (detector, reported set) outcomes",
+        if tier == Tier::Quick { "members <= 3 per contract; sequences <= 5 / (<=3 x <=2) / (<=2 x <=1 x <=2)" } else { "members <= 3; sequences <= 6 / (<=4 x <=3) / (<=3 x <=2 x <=3)" },
+        json!([sample1, sample2]),
+    )
+}
+
+// ======================================================================================= C07
+
+fn msg_sender() -> Frag {
+    member(var("msg"), "sender")
+}
+
+fn sd_call(callee: &'static str, payout: usize) -> Frag {
+    let arg = match payout {
+        0 => var("x"),
+        1 => msg_sender(),
+        2 => call(ty("payable"), vec![msg_sender()]),
+        3 => call(ty("address"), vec![msg_sender()]),
+        4 => call(ty("payable"), vec![call(ty("address"), vec![msg_sender()])]),
+        _ => call(var("wrap"), vec![msg_sender()]),
+    };
+    call(var(callee), vec![arg])
+}
+
+fn guard_stmt(g: usize) -> Option<Frag> {
+    let eq = |l: Frag, r: Frag, ne: bool| if ne { bin("NotEqual", "!=", 11, 11, 10, l, r) } else { bin("Equal", "==", 11, 11, 10, l, r) };
+    Some(match g {
+        0 => return None,
+        1 => expr_stmt(call(var("require"), vec![eq(msg_sender(), var("o"), false)])),
+        2 => expr_stmt(call(var("require"), vec![eq(var("o"), msg_sender(), false), strlit("no")])),
+        3 => expr_stmt(call(var("require"), vec![eq(msg_sender(), var("o"), true)])),
+        4 => expr_stmt(call(var("check"), vec![msg_sender()])),
+        5 => node("If", vec![T("if"), T("("), C(eq(msg_sender(), var("o"), false)), T(")"), C(block(vec![expr_stmt(var("y"))]))]),
+        6 => node("Emit", vec![T("emit"), C(call(var("Ev"), vec![msg_sender()])), T(";")]),
+        7 => node("VariableDefinition", vec![C(ty("address")), T("w"), T("="), C(call(ty("payable"), vec![msg_sender()])), T(";")]),
+        8 => expr_stmt(call(var("require"), vec![eq(call(ty("payable"), vec![msg_sender()]), var("o"), false)])),
+        9 => expr_stmt(call(member(var("acl"), "check"), vec![var("k"), msg_sender()])),
+        _ => expr_stmt(call(var("assert"), vec![eq(var("o"), msg_sender(), true)])),
+    })
+}
+
+fn sd_function(kind: &'static str, vis: &'static str, modifier: &'static str, body: Vec<Frag>) -> Frag {
+    let mut p = vec![T(kind)];
+    if kind == "function" {
+        p.push(T("kill"));
+    }
+    p.push(T("("));
+    p.push(T(")"));
+    if !vis.is_empty() {
+        p.push(T(vis));
+    }
+    if !modifier.is_empty() {
+        p.push(T(modifier));
+    }
+    p.push(C(block(body)));
+    node("FunctionDefinition", p)
+}
+
+fn muldiv_trees(max_ops: usize) -> Vec<Frag> {
+    // all binary trees over {*, /, +} with <= max_ops operators, leaves named a..e in order
+    fn gen(ops: usize, next_leaf: &mut usize, out: &mut Vec<(Frag, usize)>) {
+        let _ = (ops, next_leaf, out);
+    }
+    let _ = gen;
+    fn build(ops: usize) -> Vec<Frag> {
+        if ops == 0 {
+            return vec![var("L")];
+        }
+        let mut v = Vec::new();
+        for left in 0..ops {
+            let right = ops - 1 - left;
+            let ls = build(left);
+            let rs = build(right);
+            for l in &ls {
+                for r in &rs {
+                    for (k, o, p, lc, rc) in [("Multiply", "*", 4u8, 4u8, 3u8), ("Divide", "/", 4, 4, 3), ("Add", "+", 5, 5, 4)] {
+                        v.push(bin(k, o, p, lc, rc, l.clone(), r.clone()));
+                        // explicit (redundant) parentheses around non-leaf children
+                        if l.toks.len() > 1 || r.toks.len() > 1 {
+                            let lp = if l.toks.len() > 1 { paren(l.clone()) } else { l.clone() };
+                            let rp = if r.toks.len() > 1 { paren(r.clone()) } else { r.clone() };
+                            v.push(bin(k, o, p, lc, rc, lp, rp));
+                        }
+                    }
+                }
+            }
+        }
+        v
+    }
+    let mut all = Vec::new();
+    for n in 1..=max_ops {
+        all.extend(build(n));
+    }
+    all
+}
+
+pub fn c07(tier: Tier) -> i32 {
+    util::quiet();
+    let mut run = Run::new("C07", if tier == Tier::Quick { "quick" } else { "thorough" });
+    let ds = dets::by_names(C07_DETS);
+    if ds.len() != C07_DETS.len() {
+        run.machinery("not all 4 detectors are addressable by their documented name".into());
+    }
+    // ---- Σ
+    let c = corpus::build(tier);
+    let sw = refdet::sweep(&c, &ds, Mode::Semantic);
+    require_must(&mut run, &sw, &["unsafe_erc20_operation", "divide_before_multiply", "floating_pragma"], "Σ");
+    absorb(&mut run, sw, "Σ");
+
+    // ---- selfdestruct matrix
+    let sd: Vec<_> = ds.iter().filter(|d| d.name == "unprotected_selfdestruct").cloned().collect();
+    let mut items: Vec<(String, String, Vec<usize>)> = Vec::new();
+    let in_c = |f: Frag| file(vec![pragma(PRAGMA), contract("C", vec![f])]);
+    for kind in ["function", "fallback", "receive", "constructor"] {
+        for vis in ["", "public", "external", "internal", "private"] {
+            for modifier in ["", "onlyOwner", "only", "m", "OnlyOwner", "lonely"] {
+                for g in 0..=10usize {
+                    for payout in 0..=5usize {
+                        for callee in ["selfdestruct", "suicide"] {
+                            if tier == Tier::Quick && callee == "suicide" && (g + payout) % 3 != 0 {
+                                continue;
+                            }
+                            let mut body = Vec::new();
+                            if let Some(gs) = guard_stmt(g) {
+                                body.push(gs);
+                            }
+                            body.push(expr_stmt(sd_call(callee, payout)));
+                            let f = in_c(sd_function(kind, vis, modifier, body));
+                            let (t, o) = render_l1(&f.toks);
+                            items.push((format!("sd:{}:{}:{}:g{}:p{}:{}", kind, vis, modifier, g, payout, callee), t, o));
+                        }
+                    }
+                }
+            }
+        }
+    }
+    // guard after the call, and in another function of the same contract
+    for g in 1..=10usize {
+        for payout in [0usize, 2] {
+            let f = in_c(sd_function("function", "public", "", vec![expr_stmt(sd_call("selfdestruct", payout)), guard_stmt(g).unwrap()]));
+            let (t, o) = render_l1(&f.toks);
+            items.push((format!("sd:guard-after:g{}:p{}", g, payout), t, o));
+            let other = node("FunctionDefinition", vec![T("function"), T("other"), T("("), T(")"), T("public"), C(block(vec![guard_stmt(g).unwrap()]))]);
+            let f2 = file(vec![pragma(PRAGMA), contract("C", vec![other, sd_function("function", "external", "", vec![expr_stmt(sd_call("selfdestruct", payout))])])]);
+            let (t, o) = render_l1(&f2.toks);
+            items.push((format!("sd:guard-in-other-function:g{}:p{}", g, payout), t, o));
+        }
+    }
+    // placement of the call in every statement hole
+    let salts = stmt_alts();
+    let simples = simple_alts();
+    for payout in [0usize, 2] {
+        for g in [0usize, 2] {
+            let leaf = vec![("sd".to_string(), expr_stmt(sd_call("selfdestruct", payout)))];
+            for depth in 1..=(if tier == Tier::Quick { 1 } else { 2 }) {
+                for (n, st) in stmt_chains(&salts, &simples, depth, &leaf) {
+                    let mut body = Vec::new();
+                    if let Some(gs) = guard_stmt(g) {
+                        body.push(gs);
+                    }
+                    body.push(st);
+                    let f = in_c(sd_function("function", "public", "", body));
+                    let (t, o) = render_l1(&f.toks);
+                    items.push((format!("sd:placement:{}:g{}:p{}", n, g, payout), t, o));
+                }
+            }
+            // in every expression hole of every statement
+            let e = vec![("sd".to_string(), sd_call("selfdestruct", payout))];
+            for (n, st) in stmt_expr_holes(&salts, &simples, &e) {
+                let mut body = Vec::new();
+                if let Some(gs) = guard_stmt(g) {
+                    body.push(gs);
+                }
+                body.push(st);
+                let f = in_c(sd_function("function", "external", "", body));
+                let (t, o) = render_l1(&f.toks);
+                items.push((format!("sd:expr-hole:{}:g{}:p{}", n, g, payout), t, o));
+            }
+        }
+    }
+    let sw2 = refdet::sweep_texts(&items, &sd, Mode::Semantic);
+    require_must(&mut run, &sw2, &["unprotected_selfdestruct"], "selfdestruct-matrix");
+    let sample_sd = json!({"label": items[items.len() / 2].0, "text": items[items.len() / 2].1});
+    absorb(&mut run, sw2, "selfdestruct-matrix");
+
+    // ---- division / multiplication chains
+    let dm: Vec<_> = ds.iter().filter(|d| d.name == "divide_before_multiply").cloned().collect();
+    let mut items3: Vec<(String, String, Vec<usize>)> = Vec::new();
+    for (i, e) in muldiv_trees(if tier == Tier::Quick { 3 } else { 4 }).into_iter().enumerate() {
+        let f = in_c(func("f", &["public"], vec![expr_stmt(bin("Assign", "=", 14, 13, 14, var("r"), e.clone()))]));
+        let (t, o) = render_l1(&f.toks);
+        items3.push((format!("muldiv:{}", i), t, o));
+        let f = in_c(func("f", &["public"], vec![expr_stmt(bin("AssignDivide", "/=", 14, 13, 14, var("r"), e.clone()))]));
+        let (t, o) = render_l1(&f.toks);
+        items3.push((format!("assigndiv:{}", i), t, o));
+        if i % 5 == 0 {
+            let f = in_c(func("f", &["public"], vec![expr_stmt(bin("AssignMultiply", "*=", 14, 13, 14, var("r"), e))]));
+            let (t, o) = render_l1(&f.toks);
+            items3.push((format!("assignmul:{}", i), t, o));
+        }
+    }
+    let sw3 = refdet::sweep_texts(&items3, &dm, Mode::Semantic);
+    require_must(&mut run, &sw3, &["divide_before_multiply"], "muldiv-chains");
+    absorb(&mut run, sw3, "muldiv-chains");
+
+    // ---- pragma values
+    let fp: Vec<_> = ds.iter().filter(|d| d.name == "floating_pragma").cloned().collect();
+    let mut items4: Vec<(String, String, Vec<usize>)> = Vec::new();
+    let values = ["0.8.19", "=0.8.19", "= 0.8.19", "^0.8.19", "^ 0.8.19", ">=0.8.0", "~0.8.19", ">=0.8.0 <0.9.0", "^0.8.0 || ^0.7.0", "0.8.0 - 0.8.19", "*", ">0.8.0", "0.4.26", "^0.4.0", "1.2.3", "^1.2.3"];
+    let other: [Option<Frag>; 3] = [
+        None,
+        Some(node("PragmaDirective", vec![T("pragma"), T("experimental"), T("ABIEncoderV2"), T(";")])),
+        Some(node("PragmaDirective", vec![T("pragma"), T("abicoder"), T("v2"), T(";")])),
+    ];
+    for v1 in values {
+        for o in &other {
+            for pos in 0..3 {
+                let p1 = pragma(v1);
+                let body = contract("C", vec![]);
+                let parts = match (o, pos) {
+                    (None, 0) => vec![p1, body],
+                    (None, 1) => vec![body, p1],
+                    (None, _) => vec![p1, body, pragma("0.8.19")],
+                    (Some(x), 0) => vec![x.clone(), p1, body],
+                    (Some(x), 1) => vec![p1, x.clone(), body],
+                    (Some(x), _) => vec![p1, body, x.clone()],
+                };
+                let f = file(parts);
+                let (t, ofs) = render_l1(&f.toks);
+                items4.push((format!("pragma:{}:{}:{}", v1, o.is_some(), pos), t, ofs));
+            }
+        }
+    }
+    let sw4 = refdet::sweep_texts(&items4, &fp, Mode::Semantic);
+    require_must(&mut run, &sw4, &["floating_pragma"], "pragma-values");
+    absorb(&mut run, sw4, "pragma-values");
+    finish(
+        run,
+        "states = programs: Σ (erc20 / division / pragma atoms in every hole) + selfdestruct matrix (function kind x visibility x modifier name x 11 guard forms x 6 payout forms x callee; guard after the call / in another function; the call in every statement hole and every expression hole of every statement) + all {*,/,+} trees with <= 3 (4) operators with and without redundant parentheses as right-hand side of =, /=, *= + pragma values x unrelated pragmas x positions; oracle = reference detectors 8.17–8.20 (three-valued); non-trivial = distinct (detector, reported set) outcomes",
+        if tier == Tier::Quick { "Σ quick; operator trees <= 3; statement placement depth 1" } else { "Σ thorough; operator trees <= 4; statement placement depth 2" },
+        json!([sample_sd]),
+    )
+}
+
+// ======================================================================================= C08
+
+fn toks_of(s: &str) -> Vec<String> {
+    s.split_whitespace().map(|x| x.to_string()).collect()
+}
+
+/// insert `decl` right after the opening brace of the first `contract C {`; None if there is none
+fn inject_into_c(toks: &[String], decl: &[String]) -> Option<Vec<String>> {
+    for i in 0..toks.len().saturating_sub(2) {
+        if toks[i] == "contract" && toks[i + 1] == "C" && toks[i + 2] == "{" {
+            let mut v = toks[..i + 3].to_vec();
+            v.extend_from_slice(decl);
+            v.extend_from_slice(&toks[i + 3..]);
+            return Some(v);
+        }
+    }
+    None
+}
+
+fn l1_item(label: String, toks: &[String]) -> (String, String, Vec<usize>) {
+    let (t, o) = render_l1(toks);
+    (label, t, o)
+}
+
+/// write forms on the bare identifier / gray forms rooted at it
+fn write_forms(name: &'static str, all: bool) -> Vec<(String, Frag)> {
+    let mut v: Vec<(String, Frag)> = Vec::new();
+    let assigns: Vec<&(&str, &str, u8, u8, u8)> = BINOPS.iter().filter(|b| b.0.starts_with("Assign")).collect();
+    for (i, b) in assigns.iter().enumerate() {
+        if all || [0usize, 1, 4, 6, 9].contains(&i) {
+            v.push((format!("w.{}", b.0), bin(b.0, b.1, b.2, b.3, b.4, var(name), num("5"))));
+        }
+    }
+    v.push(("w.PreIncrement".into(), nodep("PreIncrement", 2, vec![T("++"), C(var(name))])));
+    v.push(("w.PostDecrement".into(), nodep("PostDecrement", 0, vec![C(var(name)), T("--")])));
+    if all {
+        v.push(("w.PreDecrement".into(), nodep("PreDecrement", 2, vec![T("--"), C(var(name))])));
+        v.push(("w.PostIncrement".into(), nodep("PostIncrement", 0, vec![C(var(name)), T("++")])));
+    }
+    // gray forms
+    v.push(("g.index".into(), bin("Assign", "=", 14, 13, 14, subscript(var(name), num("0")), num("5"))));
+    v.push(("g.delete".into(), nodep("Delete", 2, vec![T("delete"), C(var(name))])));
+    if all {
+        v.push(("g.paren".into(), bin("Assign", "=", 14, 13, 14, paren(var(name)), num("5"))));
+        v.push(("g.member".into(), bin("AssignAdd", "+=", 14, 13, 14, member(var(name), "fld"), num("5"))));
+        v.push((
+            "g.tuple".into(),
+            bin("Assign", "=", 14, 13, 14, nodep("List", 0, vec![T("("), C(var(name)), T(","), C(var("yy")), T(")")]), call(var("two"), vec![])),
+        ));
+        v.push(("g.index2".into(), bin("Assign", "=", 14, 13, 14, subscript(subscript(var(name), num("0")), num("1")), num("5"))));
+    }
+    v
+}
+
+/// every position (as a whole file) in which an expression can sit, with the given expressions
+fn positions(exprs: &[(String, Frag)], tier: Tier) -> Vec<(String, Vec<String>)> {
+    let ealts = expr_alts();
+    let salts = stmt_alts();
+    let simples = simple_alts();
+    let ctxs = expr_contexts();
+    let mut out: Vec<(String, Vec<String>)> = Vec::new();
+    let in_c = |f: Frag| file(vec![pragma(PRAGMA), contract("C", vec![f])]);
+    for c in &ctxs {
+        if let H::E(class) = c.hole {
+            for (n, f) in exprs {
+                out.push((format!("{}<-{}", c.name, n), (c.wrap)(fit(class, f)).toks));
+            }
+        }
+    }
+    let fk = func_kinds();
+    for (n, st) in stmt_expr_holes(&salts, &simples, exprs) {
+        out.push((format!("stmt:{}", n), in_c(func("f", &["public"], vec![st.clone()])).toks));
+        if tier == Tier::Thorough {
+            for (kn, kw) in &fk {
+                out.push((format!("stmt:{}@{}", n, kn), kw(st.clone()).toks));
+            }
+        }
+    }
+    // inside every expression hole of every expression alternative
+    for a in ealts.iter().filter(|a| !a.atom) {
+        for h in 0..a.holes.len() {
+            for (n, f) in exprs {
+                let e = build_e(a, Some((h, f)));
+                out.push((format!("expr:{}[{}]<-{}", a.name, h, n), in_c(func("f", &["external"], vec![expr_stmt(e)])).toks));
+            }
+        }
+    }
+    // as a statement in every statement hole, in every function kind
+    let leaves: Vec<(String, Frag)> = exprs.iter().map(|(n, f)| (n.clone(), expr_stmt(f.clone()))).collect();
+    for depth in 0..=1 {
+        for (n, st) in stmt_chains(&salts, &simples, depth, &leaves) {
+            for (kn, kw) in &fk {
+                out.push((format!("chain:{}@{}", n, kn), kw(st.clone()).toks));
+            }
+        }
+    }
+    out
+}
+
+pub fn c08(tier: Tier) -> i32 {
+    util::quiet();
+    let mut run = Run::new("C08", if tier == Tier::Quick { "quick" } else { "thorough" });
+    let ds = dets::by_names(C08_DETS);
+    if ds.len() != C08_DETS.len() {
+        run.machinery("not all 4 detectors are addressable by their documented name".into());
+    }
+    let state_dets: Vec<_> = ds.iter().filter(|d| d.name != "memory_to_calldata").cloned().collect();
+    // ---- holders: how the state variable s0 is declared (and possibly assigned in a constructor)
+    let mut holders: Vec<(&str, String)> = vec![
+        ("plain", "uint256 s0 ;".into()),
+        ("ctor", "uint256 s0 ; constructor ( ) { s0 = 7 ; }".into()),
+        ("init", "uint256 s0 = 3 ;".into()),
+        ("constant", "uint256 constant s0 = 3 ;".into()),
+        ("immutable", "uint256 immutable s0 ; constructor ( ) { s0 = 7 ; }".into()),
+        ("address.ctor", "address s0 ; constructor ( ) { s0 = msg . sender ; }".into()),
+        ("private.ctor", "bytes32 private s0 ; constructor ( bytes32 k ) { s0 = k ; }".into()),
+    ];
+    if tier == Tier::Thorough {
+        holders.extend(vec![
+            ("bool.ctor.call", "bool s0 ; constructor ( ) { s0 = decide ( 1 ) ; }".into()),
+            ("string.ctor", "string s0 ; constructor ( ) { s0 = \"s\" ; }".into()),
+            ("bytes.ctor.abi", "bytes s0 ; constructor ( ) { s0 = abi . encode ( 1 ) ; }".into()),
+            ("mapping", "mapping ( address => uint256 ) s0 ;".into()),
+            ("array", "uint256 [ ] s0 ;".into()),
+            ("ctor.compound", "uint256 s0 ; constructor ( ) { s0 += 7 ; }".into()),
+            ("ctor.twice", "uint256 s0 ; constructor ( ) { s0 = 7 ; s0 = 8 ; }".into()),
+            ("public.immutable.init", "uint256 public immutable s0 = 3 ;".into()),
+        ]);
+    }
+    let forms = write_forms("s0", tier == Tier::Thorough);
+    let pos = positions(&forms, tier);
+    let mut items: Vec<(String, String, Vec<usize>)> = Vec::new();
+    for (hn, decl) in &holders {
+        let d = toks_of(decl);
+        // holder alone: the "always suggests" halves
+        let mut alone = toks_of("pragma solidity 0.8.19 ; contract H {");
+        alone.extend(d.clone());
+        alone.push("}".into());
+        items.push(l1_item(format!("holder-alone:{}", hn), &alone));
+        for (pn, toks) in &pos {
+            // (1) declaration in the same contract as the write, when there is a contract C
+            if let Some(v) = inject_into_c(toks, &d) {
+                items.push(l1_item(format!("same:{}:{}", hn, pn), &v));
+            }
+            // (2) declaration in another contract after / before the code that writes
+            let mut after = toks.clone();
+            after.extend(toks_of("contract H {"));
+            after.extend(d.clone());
+            after.push("}".into());
+            items.push(l1_item(format!("other-after:{}:{}", hn, pn), &after));
+            if tier == Tier::Thorough || pn.len() % 3 == 0 {
+                // pragma stays first: insert the holder right after the 4 pragma tokens
+                let mut before = toks[..4].to_vec();
+                before.extend(toks_of("contract H {"));
+                before.extend(d.clone());
+                before.push("}".into());
+                before.extend_from_slice(&toks[4..]);
+                items.push(l1_item(format!("other-before:{}:{}", hn, pn), &before));
+            }
+        }
+    }
+    // the quantifier excludes files in which the state-variable name is declared twice
+    let keep = util::par_map(items.len(), |i| refdet::unique_state_var_names(&items[i].1));
+    let items: Vec<_> = items.into_iter().zip(keep).filter(|(_, k)| *k).map(|(x, _)| x).collect();
+    let sw = refdet::sweep_texts(&items, &state_dets, Mode::Semantic);
+    require_must(&mut run, &sw, &["constant_variables", "immutable_variables", "sstore"], "write-sites");
+    let sample1 = json!({"label": items[items.len() / 2].0, "text": items[items.len() / 2].1});
+    absorb(&mut run, sw, "write-sites");
+
+    // ---- two write sites (thorough): one canonical position x every position of a sub-alphabet
+    if tier == Tier::Thorough {
+        let forms2 = write_forms("s0", false);
+        let pos2 = positions(&forms2[..3], Tier::Quick);
+        let mut items2 = Vec::new();
+        for (hn, decl) in holders.iter().take(3) {
+            let d = toks_of(decl);
+            for (pn, toks) in pos2.iter().step_by(2) {
+                for second in ["function second ( ) external { s0 -= 1 ; }", "modifier second ( ) { s0 ++ ; _ ; }", "constructor ( uint256 z ) { s0 = z ; }"] {
+                    let mut decl2 = d.clone();
+                    decl2.extend(toks_of(second));
+                    let mut v = toks.clone();
+                    v.extend(toks_of("contract H {"));
+                    v.extend(decl2);
+                    v.push("}".into());
+                    items2.push(l1_item(format!("two:{}:{}:{}", hn, pn, &second[..12]), &v));
+                }
+            }
+        }
+        let sw2 = refdet::sweep_texts(&items2, &state_dets, Mode::Semantic);
+        absorb(&mut run, sw2, "two-write-sites");
+    }
+
+    // ---- memory_to_calldata: parameter space
+    let m2c: Vec<_> = ds.iter().filter(|d| d.name == "memory_to_calldata").cloned().collect();
+    let pforms = {
+        let mut v = write_forms("p", tier == Tier::Thorough);
+        v.push(("none".into(), var("unrelated")));
+        v.push(("read".into(), bin("Assign", "=", 14, 13, 14, var("q"), subscript(var("p"), num("0")))));
+        v.push(("w.other".into(), bin("Assign", "=", 14, 13, 14, var("q"), var("p"))));
+        v
+    };
+    let salts = stmt_alts();
+    let simples = simple_alts();
+    let mut bodies: Vec<(String, Frag)> = Vec::new();
+    let leaves: Vec<(String, Frag)> = pforms.iter().map(|(n, f)| (n.clone(), expr_stmt(f.clone()))).collect();
+    bodies.extend(leaves.iter().cloned());
+    bodies.extend(stmt_chains(&salts, &simples, 1, &leaves));
+    bodies.extend(stmt_expr_holes(&salts, &simples, &pforms));
+    let mut items3: Vec<(String, String, Vec<usize>)> = Vec::new();
+    let heads: Vec<(&str, Vec<&'static str>, bool)> = vec![
+        ("function", vec!["function", "f"], false),
+        ("constructor", vec!["constructor"], false),
+        ("modifier", vec!["modifier", "mm"], false),
+        ("fallback", vec!["fallback"], false),
+        ("free", vec!["function", "g"], true),
+    ];
+    for (hl, head, filelevel) in &heads {
+        for vis in ["", "public", "external", "internal", "private"] {
+            if (*hl == "modifier" || *hl == "constructor") && !vis.is_empty() && vis != "public" {
+                continue;
+            }
+            for loc in ["memory", "calldata", "storage", ""] {
+                for named in [true, false] {
+                    for (tyname, tyfrag) in [("bytes", ty("bytes")), ("uint256[]", nodep("ArraySubscript", 0, vec![C(ty("uint256")), T("["), T("]")]))] {
+                        for (bn, body) in bodies.iter() {
+                            // thin the cross product outside the interesting corner
+                            let interesting = loc == "memory" && named;
+                            if !interesting && !(bn == "none" || bn == "w.Assign" || bn == "g.index") {
+                                continue;
+                            }
+                            if tier == Tier::Quick && interesting && tyname == "uint256[]" && bn.contains('[') && !bn.starts_with("Block") {
+                                continue;
+                            }
+                            let mut p: Vec<crate::synth::P> = head.iter().map(|t| T(t)).collect();
+                            p.push(T("("));
+                            p.push(C(ty("uint256")));
+                            p.push(T("n"));
+                            p.push(T(","));
+                            p.push(C(tyfrag.clone()));
+                            if !loc.is_empty() {
+                                p.push(T(match loc {
+                                    "memory" => "memory",
+                                    "calldata" => "calldata",
+                                    _ => "storage",
+                                }));
+                            }
+                            if named {
+                                p.push(T("p"));
+                            }
+                            p.push(T(")"));
+                            if !vis.is_empty() {
+                                p.push(T(vis));
+                            }
+                            p.push(C(block(vec![body.clone()])));
+                            let fd = node("FunctionDefinition", p);
+                            let f = if *filelevel { file(vec![pragma(PRAGMA), fd]) } else { file(vec![pragma(PRAGMA), contract("C", vec![fd])]) };
+                            items3.push(l1_item(format!("param:{}:{}:{}:{}:{}:{}", hl, vis, loc, named, tyname, bn), &f.toks));
+                        }
+                    }
+                }
+            }
+        }
+    }
+    // functions without body, two functions with the same parameter name, write in the other one
+    for t in [
+        "pragma solidity 0.8.19 ; contract C { function f ( bytes memory p ) external ; }",
+        "pragma solidity 0.8.19 ; interface I { function f ( bytes memory p ) external ; }",
+        "pragma solidity 0.8.19 ; contract C { function f ( bytes memory p ) external { } function g ( bytes memory p ) external { p = p ; } }",
+        "pragma solidity 0.8.19 ; contract C { function g ( bytes memory p ) external { p = p ; } function f ( bytes memory p ) external { } }",
+        "pragma solidity 0.8.19 ; contract C { function f ( bytes memory p , bytes memory q ) external { q = p ; } }",
+        "pragma solidity 0.8.19 ; contract C { function f ( bytes memory p ) external returns ( bytes memory r ) { r = p ; } }",
+        "pragma solidity 0.8.19 ; contract C { function f ( bytes memory p ) public m ( p ) { } }",
+    ] {
+        items3.push(l1_item(format!("param-extra:{}", t), &toks_of(t)));
+    }
+    let sw3 = refdet::sweep_texts(&items3, &m2c, Mode::Semantic);
+    require_must(&mut run, &sw3, &["memory_to_calldata"], "parameters");
+    let sample3 = json!({"label": items3[items3.len() / 2].0, "text": items3[items3.len() / 2].1});
+    absorb(&mut run, sw3, "parameters");
+    finish(
+        run,
+        "states = files of the write-site space W: a state variable s0 declared in 7 (15) ways (plain, constructor-assigned, initialised, constant, immutable, several types) in the same contract / another contract after / before, x one write of every form (11 assignment operators, ++/--, gray forms) in EVERY expression hole (declaration contexts, statement operands, operands of every expression alternative) and every statement hole of every function kind; thorough adds a second write site; memory_to_calldata: function kind x visibility x data location x named x type x every write form in every statement / expression hole of the body; oracle = reference detectors 8.21–8.24; non-trivial = distinct (detector, reported set) outcomes",
+        if tier == Tier::Quick { "one write site, 7 declaration forms, 9 write forms" } else { "two write sites, 15 declaration forms, 21 write forms, all function kinds per statement operand" },
+        json!([sample1, sample3]),
+    )
+}
+
+// ======================================================================================= C09
+
+pub fn c09(tier: Tier) -> i32 {
+    util::quiet();
+    let mut run = Run::new("C09", if tier == Tier::Quick { "quick" } else { "thorough" });
+    let ds = dets::by_names(C09_DETS);
+    if ds.len() != C09_DETS.len() {
+        run.machinery("not all 4 detectors are addressable by their documented name".into());
+    }
+    let patches: Vec<u32> = if tier == Tier::Quick { vec![0, 1, 2, 3, 4, 5, 9, 10, 39, 40] } else { (0..=40).collect() };
+    let ops = ["", "^", "~", "=", ">=", ">", "^ ", "~ ", "= ", ">= ", "> "];
+    let strings: Vec<String> = vec![
+        "".into(),
+        "a".into(),
+        "x".repeat(31),
+        "x".repeat(32),
+        "x".repeat(33),
+        "x".repeat(64),
+        "é".repeat(16),
+        "é".repeat(15) + "x",
+    ];
+    let mut body = String::new();
+    for (i, s) in strings.iter().enumerate() {
+        body.push_str(&format!("require ( c{} , \"{}\" ) ; ", i, s));
+    }
+    body.push_str("require ( c ) ; require ( \"first\" , c ) ; assert ( c ) ; other ( c , \"");
+    body.push_str(&"y".repeat(40));
+    body.push_str("\" ) ; r = a . add ( b ) ; r = a . sub ( b ) . mul ( d ) ; r = a . div ( b ) ; r = a . mod ( b ) ; r = add ( a , b ) ;");
+    let bodies: Vec<(&str, String)> = vec![
+        ("attached-contract", format!("contract C {{ using SafeMath for uint256 ; function f ( ) public {{ {} }} }}", body)),
+        ("attached-file", format!("using SafeMath for uint256 ; contract C {{ function f ( ) public {{ {} }} }}", body)),
+        ("not-attached", format!("contract C {{ using Other for uint256 ; function f ( ) public {{ {} }} }}", body)),
+    ];
+    let placements = ["none", "experimental-before", "abicoder-before", "both-before", "after", "solidity-last"];
+    let mut items: Vec<(String, String, Vec<usize>)> = Vec::new();
+    // strings contain blanks-free text, so whitespace tokenisation is safe except for the empty string
+    let tokenise = |s: &str| -> Vec<String> { s.split(' ').filter(|x| !x.is_empty()).map(|x| x.to_string()).collect() };
+    for major in 0..=1u32 {
+        for minor in 0..=20u32 {
+            for &patch in &patches {
+                for (oi, op) in ops.iter().enumerate() {
+                    // thin the (operator x placement x body) product away from the thresholds in the quick tier
+                    let near = (major == 0 && (7..=9).contains(&minor)) || (major == 1 && minor == 0);
+                    for (pi, pl) in placements.iter().enumerate() {
+                        for (bi, (bn, btxt)) in bodies.iter().enumerate() {
+                            if tier == Tier::Quick && !near && (oi + pi + bi + (patch as usize) + (minor as usize)) % 7 != 0 {
+                                continue;
+                            }
+                            let value = format!("{}{}.{}.{}", op, major, minor, patch);
+                            let sol = vec!["pragma".to_string(), "solidity".to_string(), value.clone(), ";".to_string()];
+                            let exp = tokenise("pragma experimental ABIEncoderV2 ;");
+                            let abi = tokenise("pragma abicoder v2 ;");
+                            let b = tokenise(btxt);
+                            let mut toks: Vec<String> = Vec::new();
+                            match *pl {
+                                "none" => {
+                                    toks.extend(sol);
+                                    toks.extend(b);
+                                }
+                                "experimental-before" => {
+                                    toks.extend(exp);
+                                    toks.extend(sol);
+                                    toks.extend(b);
+                                }
+                                "abicoder-before" => {
+                                    toks.extend(abi);
+                                    toks.extend(sol);
+                                    toks.extend(b);
+                                }
+                                "both-before" => {
+                                    toks.extend(exp);
+                                    toks.extend(abi);
+                                    toks.extend(sol);
+                                    toks.extend(b);
+                                }
+                                "after" => {
+                                    toks.extend(sol);
+                                    toks.extend(b);
+                                    toks.extend(exp);
+                                    toks.extend(abi);
+                                }
+                                _ => {
+                                    toks.extend(abi);
+                                    toks.extend(b);
+                                    toks.extend(sol);
+                                }
+                            }
+                            items.push(l1_item(format!("v:{}:{}:{}", value, pl, bn), &toks));
+                        }
+                    }
+                }
+            }
+        }
+    }
+    let sw = refdet::sweep_texts(&items, &ds, Mode::Semantic);
+    require_must(&mut run, &sw, C09_DETS, "versions");
+    let sample = json!({"label": items[items.len() / 2].0, "text": items[items.len() / 2].1});
+    run.set("versions_enumerated", (2 * 21 * patches.len()) as u64);
+    absorb(&mut run, sw, "versions");
+
+    // ---- call sites and require strings in every hole (Σ), with SafeMath attached at file level,
+    //      for one version on either side of the thresholds
+    let c = corpus::build(Tier::Quick);
+    let mut items2: Vec<(String, String, Vec<usize>)> = Vec::new();
+    for p in c.progs.iter().filter(|p| p.tag.contains("atom.safe_add") || p.tag.contains("atom.require_long") || p.tag.contains("atom.require_plain") || p.tag.contains("atom.x_add_empty")) {
+        if p.toks.len() < 4 || p.toks[0] != "pragma" {
+            continue;
+        }
+        for ver in ["0.7.6", "0.8.0", "0.8.3", "0.8.4"] {
+            let mut t = p.toks.clone();
+            t[2] = ver.to_string();
+            t.extend(toks_of("using SafeMath for uint256 ;"));
+            items2.push(l1_item(format!("{}@{}", p.tag, ver), &t));
+        }
+    }
+    let sw2 = refdet::sweep_texts(&items2, &ds, Mode::Semantic);
+    require_must(&mut run, &sw2, C09_DETS, "every-hole");
+    absorb(&mut run, sw2, "every-hole");
+    finish(
+        run,
+        "states = files: every version triple {0,1} x {0..20} x {0..40} (quick: 10 patch values, product thinned away from the thresholds) x 11 operator spellings x 6 placements of unrelated pragmas / of the solidity pragma x 3 bodies (SafeMath attached at contract level / file level / not attached) holding add/sub/mul/div call sites and require strings of 0,1,31,32,33,64 bytes and 16 two-byte characters, require without string and with a non-final string; plus SafeMath calls and require strings in every syntactic hole for versions 0.7.6/0.8.0/0.8.3/0.8.4; oracle = thresholds 0.8.0 and 0.8.4 on the (major, minor, patch) triple printed by the harness; non-trivial = distinct (detector, reported set) outcomes",
+        if tier == Tier::Quick { "420 versions (thinned product), full product near the thresholds" } else { "all 1722 versions x full product" },
+        json!([sample]),
+    )
+}
